@@ -67,6 +67,25 @@ def generic_classes(ctx, names: List[str]):
     return out
 
 
+def has_generic_structure(ctx, kc: KitClass) -> Optional[bool]:
+    """The class's pattern is the one moclo.core derives for a plain user class with the same role and enzyme (`class X(Entry):
+    cutter = E`): said of what the class computes, wherever the code that makes it so lives (an override, a class attribute
+    the base method honours, a class decorator).  None when the comparison cannot be made."""
+    memo = ctx.__dict__.setdefault("_generic_structure_memo", {})
+    if kc.name in memo:
+        return memo[kc.name]
+    res = None
+    if kc.cutter is not None and kc.role in ("module", "vector") and kc.pattern_text is not None:
+        try:
+            ref = describe(ctx.program, ctx.folder, ctx.lettermap, synthetic_generic(ctx.program, kc.role, kc.cutter.name))
+            if ref.concrete and ref.pattern_text is not None:
+                res = ref.pattern_text == kc.pattern_text
+        except AnalysisError:
+            res = None
+    memo[kc.name] = res
+    return res
+
+
 def enzymes_for_tier(ctx) -> List[str]:
     used = sorted({k.cutter.name for k in ctx.inventory if k.cutter is not None})
     allz = [e[0] for e in enzymes_in_scope()]
@@ -194,6 +213,10 @@ def next_level_instances(ctx) -> List[Tuple[KitClass, Optional[KitClass], KitCla
         """the class's structure is not the generic one of moclo.core for its enzyme (wherever the code that makes it so
         lives: in the class, in a base class of the kit, in a mixin of moclo.core)"""
         if k.name not in memo:
+            g_ = has_generic_structure(ctx, k)
+            if g_ is not None:
+                memo[k.name] = not g_
+                return memo[k.name]
             base = generic_of.get(k.role)
             raw = base.attrs.get("structure") if base is not None else None
             if not isinstance(raw, FuncInfo) or k.pattern_text is None:
